@@ -1,8 +1,10 @@
 package main
 
 import (
+	"fmt"
 	"go/constant"
 	"go/types"
+	"os"
 	"regexp"
 	"sort"
 	"strings"
@@ -210,8 +212,24 @@ func checkCLIFiles(p *Program, r *Result) {
 				for _, s := range srcs {
 					found := false
 					for i, t := range appended {
-						if strings.Contains(t, s.want) && (appBlocks[i].Dominates(cmpLoop.Header) || blockCanReach(appBlocks[i], cmpLoop.Header)) {
-							found = true
+						if !strings.Contains(t, s.want) {
+							continue
+						}
+						if s.key == "input" {
+							if appBlocks[i].Dominates(cmpLoop.Header) || blockCanReach(appBlocks[i], cmpLoop.Header) {
+								found = true
+							}
+							continue
+						}
+						// files given by flags: collected by a loop over the flag values that has run to
+						// completion whenever the comparison starts, in every mode of operation
+						for _, l := range rangeLoops(mainFn) {
+							if l != cmpLoop && l.inLoop(appBlocks[i]) && p.completedAt(l, cmpLoop.Header) {
+								if os.Getenv("AGECHECK_DEBUG_C15") != "" {
+									fmt.Fprintf(os.Stderr, "C15 %s: append b%d in loop hdr b%d (exit b%d) completed at b%d; set=%v\n", s.key, appBlocks[i].Index, l.Header.Index, l.Exit.Index, cmpLoop.Header.Index, l.blocks()[appBlocks[i]])
+								}
+								found = true
+							}
 						}
 					}
 					r.Check(found, mainFn.String(), "same-file:source:"+s.key, "", "appended to inUseFiles through absPath before the comparison", "paths of "+s.key+" are not added to inUseFiles (through absPath) before the output is compared: -o could name such a file")
